@@ -2,6 +2,7 @@
 //! Decided for three bounded, exhaustively enumerated families (DESIGN.md section 3, C05).
 
 pub mod acc;
+pub mod dumpfam;
 pub mod edits;
 pub mod eps;
 pub mod iso;
@@ -20,6 +21,7 @@ pub fn resolve(name: &str) -> Option<(&'static str, iso::RunCase)> {
         "pixel" => ("pixel", shorts::run_pixel),
         "json" => ("json", shorts::run_json),
         "strings" => ("strings", shorts::run_strings),
+        "dump" => ("dump", dumpfam::run),
         "selftest" => ("selftest", selftest_run),
         _ => return None,
     })
@@ -75,6 +77,7 @@ pub fn family_size(name: &str, thorough: bool) -> u64 {
         "pixel" => shorts::pixel_size(),
         "json" => shorts::json_uni(thorough).size(),
         "strings" => shorts::strings(thorough).size(),
+        "dump" => dumpfam::size(),
         "selftest" => 600,
         _ => 0,
     }
